@@ -14,3 +14,15 @@ Lemma T_Mb_src_mb_askcomplete : src_mb_askcomplete =
   "{ a.once.Do(func() { a.errCode = errCode a.tooLong = len(resp) > len(a.respBuf) a.n = copy(a.respBuf, resp) close(a.done) }) }"%string.
 Proof. reflexivity. Qed.
 
+(* completion test of the collector and the outbound message counter *)
+Lemma T_Mb_src_mb_allset : src_mb_allset =
+  "{ l := bm.len() for i := 0; i < l; i++ { if !bm.get(i) { return false } } return true }"%string.
+Proof. reflexivity. Qed.
+
+Lemma T_Mb_src_mb_iscomplete : src_mb_iscomplete =
+  "{ c.mu.Lock() defer c.mu.Unlock() return c.bitMap.allSet() }"%string.
+Proof. reflexivity. Qed.
+
+Lemma T_Mb_src_mb_getcounter : src_mb_getcounter =
+  "{ return atomic.AddUint32(&s.counter, 1) }"%string.
+Proof. reflexivity. Qed.
